@@ -346,7 +346,7 @@ Proof.
     assert (Hsc : 0 < sg * (cc * cc)).
     { rewrite Hcc. apply Rmult_lt_0_compat; [assumption|]. apply Rinv_0_lt_compat. nra. }
     pose proof (sig_ok_scal e W _ Hsc) as Hs'.
-    set (y := vscal cc (vlin cc x (- (sg * cc)) u')).
+    set (y := vscal cc (vsub (vscal cc x) (vscal (sg * cc) u'))).
     assert (Ly : length y = fdim e) by (unfold y; auto with vlen).
     destruct (IHe W (SScal (sg * (cc * cc))) y Hs' Ly) as (p & Ep & Pp).
     exists p. split.
